@@ -527,7 +527,54 @@ class Program(object):
 
     def is_noreturn(self, name):
         d = self.decls.get(name)
-        return bool(d and d.get("noreturn"))
+        if d and d.get("noreturn"):
+            return True
+        return name in self.derived_noreturn()
+
+    def derived_noreturn(self):
+        """functions without the attribute that still never return: every path from entry ends in a call
+        to a (derived) noreturn function (e.g. janet_asm_errorv -> janet_asm_longjmp -> longjmp)."""
+        if getattr(self, "_derived_nr", None) is not None:
+            return self._derived_nr
+        self._derived_nr = set()
+        cand = []
+        for f in self.all_funcs():
+            if f.d.get("noreturn") or "blocks" not in f.d:
+                continue
+            cand.append(f)
+        changed = True
+        while changed:
+            changed = False
+            for f in cand:
+                if f.name in self._derived_nr:
+                    continue
+                # reachability of exit with paths cut after noreturn calls
+                seen = {f.entry}
+                work = [f.entry]
+                reach_exit = False
+                while work:
+                    b = work.pop()
+                    blk = f.blocks[b]
+                    if b == f.exit:
+                        reach_exit = True
+                        break
+                    cut = blk.noreturn
+                    if not cut:
+                        for n in blk.elems:
+                            if n.k == "call" and n.callee and (
+                                    (self.decls.get(n.callee) or {}).get("noreturn") or n.callee in self._derived_nr):
+                                cut = True
+                                break
+                    if cut:
+                        continue
+                    for s2 in blk.succs:
+                        if s2 >= 0 and s2 not in seen:
+                            seen.add(s2)
+                            work.append(s2)
+                if not reach_exit:
+                    self._derived_nr.add(f.name)
+                    changed = True
+        return self._derived_nr
 
     def is_external(self, name):
         """declared in a system header and not defined in the program"""
